@@ -289,3 +289,29 @@ class _Fitted:
     @cached_property
     def unit_grid(self):
         return np.linspace(0.0, 1.0, self._steps)
+
+
+import copy
+
+
+class _Pairs:
+    """pattern I: copy() re-copies only some arrays; a method writes into the other one through a copy"""
+
+    def __init__(self, rows, cols):
+        self.rows = np.asarray(rows)
+        self.cols = np.asarray(cols)
+
+    def copy(self):
+        out = copy.copy(self)
+        out.rows = self.rows.copy()
+        return out
+
+    def marked_cols(self, k):
+        out = self.copy()
+        out.cols[out.cols >= k] = -1        # lands in self.cols as well
+        return out
+
+    def marked_rows(self, k):
+        out = self.copy()
+        out.rows[out.rows >= k] = -1        # rows were re-copied: fine
+        return out
